@@ -465,6 +465,196 @@ def named : String → Option Ty
   | "Fabric" => some fabric
   | _ => none
 
+/-! ## well-formed schemas, executable check (`Ty.wf` itself is in `Lemmas/TlvSchema.lean`) -/
+
+def Fields.tags : Fields → List Nat
+  | .nil => []
+  | .cons tag _ _ _ rest => tag :: rest.tags
+  | .consSkip tag _ _ rest => tag :: rest.tags
+
+def Alts.tags : Alts → List Nat
+  | .nil => []
+  | .cons tag _ rest => tag :: rest.tags
+
+mutual
+/-- executable check of `Ty.wf` -/
+def Ty.wfb : Ty → Bool
+  | .struct _ fs => fs.wfb && decide fs.tags.Nodup
+  | .array _ el => el.wfb
+  | .choice alts => alts.wfb && decide alts.tags.Nodup
+  | _ => true
+def Fields.wfb : Fields → Bool
+  | .nil => true
+  | .cons tag _ _ ty rest => decide (tag < 256) && ty.wfb && rest.wfb
+  | .consSkip tag ty _ rest => decide (tag < 256) && ty.wfb && rest.wfb
+def Alts.wfb : Alts → Bool
+  | .nil => true
+  | .cons tag ty rest => decide (tag < 256) && ty.wfb && rest.wfb
+end
+
+
+/-! ## the tag numbering rule of the derive macro, and declarations as data
+
+`gen_totlv_for_struct_named` / `gen_fromtlv_for_struct_named`: a counter starts at `tlvargs(start = N)`
+(default 0); a field with `#[tagval(x)]` gets the context tag `x` and leaves the counter alone, every
+other field gets the counter's value and increments it.  The same rule numbers the variants of enums
+(`#[enumval(x)]`).  The harness' derive-shape structures (`c16_derive_shapes.rs`) send their
+*declaration* (start, datatype, per field: tagval?, wrapper, type) in the case line; the tags are
+computed here, by this rule — not by the macro and not by the harness. -/
+
+/-- the context tags (enum values) the derive macro assigns: `none` = implicitly numbered -/
+def implicitTags : Nat → List (Option Nat) → List Nat
+  | _, [] => []
+  | c, some x :: r => x :: implicitTags c r
+  | c, none :: r => c :: implicitTags (c + 1) r
+
+/-- field wrapper: plain, `Option<T>`, `Nullable<T>`, `Option<Nullable<T>>`, `Skippable<T>` -/
+inductive Mode | req | opt | nul | optNul | skip
+deriving DecidableEq, Repr, Inhabited
+
+/-- `T::default()` for the types a `Skippable` field may have in a declaration (arrays) -/
+def defaultOf : Ty → Option Val
+  | .array _ _ => some (.arr .nil)
+  | _ => none
+
+def fieldsOfDecl : List Nat → List (Mode × Ty) → Option Fields
+  | [], [] => some .nil
+  | tag :: tags, (m, ty) :: r =>
+    match fieldsOfDecl tags r with
+    | none => none
+    | some rest =>
+      match m with
+      | .req => some (.cons tag false false ty rest)
+      | .opt => some (.cons tag true false ty rest)
+      | .nul => some (.cons tag false true ty rest)
+      | .optNul => some (.cons tag true true ty rest)
+      | .skip =>
+        match defaultOf ty with
+        | some d => some (.consSkip tag ty d rest)
+        | none => none
+  | _, _ => none
+
+def altsOfDecl : List Nat → List Ty → Alts
+  | tag :: tags, ty :: r => .cons tag ty (altsOfDecl tags r)
+  | _, _ => .nil
+
+/-- a declared structure: `#[tlvargs(start, datatype)] struct { #[tagval(..)]? field: Wrapper<Type>, … }` -/
+def structOfDecl (k : Kind) (start : Nat) (fs : List (Option Nat × Mode × Ty)) : Option Ty :=
+  (fieldsOfDecl (implicitTags start (fs.map (·.1))) (fs.map (·.2))).map (.struct k)
+
+/-- a declared unit enum (`datatype = "u8" | "u16"`): its wire values -/
+def unitEnumOfDecl (w : Width) (start : Nat) (evs : List (Option Nat)) : Ty :=
+  .uint w (.oneOf (implicitTags start evs))
+
+/-- a declared enum with one payload per variant -/
+def payEnumOfDecl (start : Nat) (vs : List (Option Nat × Ty)) : Ty :=
+  .choice (altsOfDecl (implicitTags start (vs.map (·.1))) (vs.map (·.2)))
+
+def parseOptNat (s : String) : Option (Option Nat) :=
+  if s = "-" then some none else s.toNat?.map some
+
+def parseMode (s : String) : Option Mode :=
+  if s = "r" then some .req else if s = "o" then some .opt else if s = "n" then some .nul
+  else if s = "x" then some .optNul else if s = "s" then some .skip else none
+
+mutual
+/-- a type of the declaration language:
+`u8 u16 u32 u64 bool nz8 any` · `oct <lo> <cap|->` · `utf8 <cap|->` · `arr <cap|-> <ty>` ·
+`st|ls <start> [ (<tagval|-> <r|o|n|x|s> <ty>)* ]` · `ue8|ue16 <start> [ (<enumval|->)* ]` ·
+`pe <start> [ (<enumval|-> <ty>)* ]` -/
+def parseTyF : Nat → List String → Option (Ty × List String)
+  | 0, _ => none
+  | _ + 1, [] => none
+  | f + 1, tok :: rest =>
+    if tok = "u8" then some (tU8, rest) else if tok = "u16" then some (tU16, rest)
+    else if tok = "u32" then some (tU32, rest) else if tok = "u64" then some (tU64, rest)
+    else if tok = "bool" then some (.bool, rest) else if tok = "nz8" then some (.uint .w1 .nonzero, rest)
+    else if tok = "any" then some (.any, rest)
+    else if tok = "oct" then
+      match rest with
+      | lo :: cap :: r1 =>
+        match lo.toNat?, parseOptNat cap with
+        | some l, some c => some (.octets l c, r1)
+        | _, _ => none
+      | _ => none
+    else if tok = "utf8" then
+      match rest with
+      | cap :: r1 => (parseOptNat cap).map fun c => (.utf8 c, r1)
+      | _ => none
+    else if tok = "arr" then
+      match rest with
+      | cap :: r1 =>
+        match parseOptNat cap, parseTyF f r1 with
+        | some c, some (el, r2) => some (.array c el, r2)
+        | _, _ => none
+      | _ => none
+    else if tok = "st" ∨ tok = "ls" then
+      match rest with
+      | st :: "[" :: r1 =>
+        match st.toNat?, parseFieldDeclsF f r1 with
+        | some start, some (fs, r2) =>
+          (structOfDecl (if tok = "st" then .struct else .list) start fs).map fun ty => (ty, r2)
+        | _, _ => none
+      | _ => none
+    else if tok = "ue8" ∨ tok = "ue16" then
+      match rest with
+      | st :: "[" :: r1 =>
+        match st.toNat?, parseEnumvalsF f r1 with
+        | some start, some (evs, r2) => some (unitEnumOfDecl (if tok = "ue8" then .w1 else .w2) start evs, r2)
+        | _, _ => none
+      | _ => none
+    else if tok = "pe" then
+      match rest with
+      | st :: "[" :: r1 =>
+        match st.toNat?, parseAltDeclsF f r1 with
+        | some start, some (vs, r2) => some (payEnumOfDecl start vs, r2)
+        | _, _ => none
+      | _ => none
+    else none
+def parseFieldDeclsF : Nat → List String → Option (List (Option Nat × Mode × Ty) × List String)
+  | 0, _ => none
+  | _ + 1, [] => none
+  | f + 1, tok :: rest =>
+    if tok = "]" then some ([], rest)
+    else
+      match rest with
+      | m :: r1 =>
+        match parseOptNat tok, parseMode m, parseTyF f r1 with
+        | some tv, some mode, some (ty, r2) =>
+          match parseFieldDeclsF f r2 with
+          | some (fs, r3) => some ((tv, mode, ty) :: fs, r3)
+          | none => none
+        | _, _, _ => none
+      | [] => none
+def parseEnumvalsF : Nat → List String → Option (List (Option Nat) × List String)
+  | 0, _ => none
+  | _ + 1, [] => none
+  | f + 1, tok :: rest =>
+    if tok = "]" then some ([], rest)
+    else
+      match parseOptNat tok, parseEnumvalsF f rest with
+      | some ev, some (evs, r1) => some (ev :: evs, r1)
+      | _, _ => none
+def parseAltDeclsF : Nat → List String → Option (List (Option Nat × Ty) × List String)
+  | 0, _ => none
+  | _ + 1, [] => none
+  | f + 1, tok :: rest =>
+    if tok = "]" then some ([], rest)
+    else
+      match parseOptNat tok, parseTyF f rest with
+      | some ev, some (ty, r1) =>
+        match parseAltDeclsF f r1 with
+        | some (vs, r2) => some ((ev, ty) :: vs, r2)
+        | none => none
+      | _, _ => none
+end
+
+/-- the schema of a declaration sent in a case line -/
+def parseDecl (toks : List String) : Option Ty :=
+  match parseTyF (2 * toks.length + 2) toks with
+  | some (ty, []) => some ty
+  | _ => none
+
 /-! ## text form of values (line protocol)
 
 `-` absent, `n` null, a decimal number, `T`/`F`, `x<hex>` an octet / UTF-8 string, `{ slot … }` a
@@ -584,18 +774,21 @@ def parseVal (toks : List String) : Option Val :=
   | some (.val v, []) => some v
   | _ => none
 
-def encodeNamed (name : String) (args : List String) : Option Bytes := do
-  let ty ← named name
+def encodeText (ty : Ty) (args : List String) : Option Bytes := do
   let v ← parseVal args
   encodeStruct ty v
 
+def encodeNamed (name : String) (args : List String) : Option Bytes := do
+  let ty ← named name
+  encodeText ty args
+
 /-- `none`: unknown structure; `some none`: the model rejects; `some (some text)` -/
+def decodeText (ty : Ty) (bs : Bytes) : Option String :=
+  match decodeStruct ty bs with
+  | .ok v => some (valStr v)
+  | _ => none
+
 def decodeNamed (name : String) (bs : Bytes) : Option (Option String) :=
-  match named name with
-  | none => none
-  | some ty =>
-    match decodeStruct ty bs with
-    | .ok v => some (some (valStr v))
-    | _ => some none
+  (named name).map fun ty => decodeText ty bs
 
 end TlvSchema
